@@ -289,4 +289,11 @@ open Jomini.DomBridge in
 /-- JSON model: `read_array` (plain, mixed loop, header view) gives the reader `Dom.readArray` gives. -/
 theorem C17_bridge_json_readArray : type_of% @json_readArray := @json_readArray
 
+open Jomini.DomBridge in
+/-- JSON model: `groupEntries` serializes, in order, exactly the groups `jsonGroups` lists … -/
+theorem C17_bridge_json_groupEntries : type_of% @json_groupEntries := @json_groupEntries
+open Jomini.DomBridge in
+/-- … and those are the Dom model's groups = the stable group-by-key of the fields. -/
+theorem C17_bridge_json_groups : type_of% @json_groups := @json_groups
+
 end Jomini.Props.C17
